@@ -7,6 +7,12 @@ pub mod signers;
 pub mod report;
 pub mod jumbf;
 pub mod wrap;
+pub mod pki;
+pub mod cose_direct;
+pub mod embed;
+pub mod httpmon;
+pub mod storegen;
 
 pub use evidence::{Run, Tier};
 pub use rng::Rng;
+pub mod fmt;
